@@ -246,6 +246,9 @@ def check_frame(ex, c, env, pre, func):
     allowed_arr = set()
     allowed_fld = set()
     fr = ex.frame
+    if 'kappa' not in c.modifies_ and ex.kappa != ex.kappa_entry:
+        ex.oblige('frame', tm.eq(ex.kappa, ex.kappa_entry), label='kappa', line=func.line,
+                  note='the function consumes random numbers; the random stream is not in the modifies clause')
     for path in c.modifies_:
         if path == 'kappa':
             continue
@@ -407,12 +410,87 @@ def obligation_text(ob, used_axioms=None, get_model=False):
     return text
 
 
+def instantiate_quantifiers(hyps, goal, limit=600):
+    """quantifier-free approximation: Skolemise the goal, instantiate every universally quantified hypothesis at the
+    ground index terms of the problem.  unsat of the result implies unsat of the original (hypotheses only weakened)."""
+    sk = {}
+    counter = [0]
+
+    def skolemise(g):
+        while g is not None and g.op == 'forall':
+            m = {}
+            for v in g.args[0]:
+                counter[0] += 1
+                m[v] = tm.var('sk%d_%s' % (counter[0], v.args[0]), v.sort)
+            g = tm.substitute(g.args[1], m)
+        return g
+    goal2 = skolemise(goal) if goal is not None else None
+    ground = [h for h in hyps if h.op != 'forall']
+    quants = [h for h in hyps if h.op == 'forall']
+    # candidate index terms
+    cands = []
+    seen = set()
+
+    def add(t):
+        if t.sort == INT and t not in seen:
+            seen.add(t)
+            cands.append(t)
+    pool = ground + ([goal2] if goal2 is not None else [])
+    for t in pool:
+        for s_ in tm.subterms(t, lambda x: x.op in ('select', 'store')):
+            add(s_.args[1])
+        for v_ in tm.subterms(t, lambda x: x.op == 'var' and x.sort == INT and x.args[0].startswith('sk')):
+            add(v_)
+    for q in quants:
+        for s_ in tm.subterms(q.args[1], lambda x: x.op in ('select', 'store')):
+            i = s_.args[1]
+            if not tm.subterms(i, lambda x: x in q.args[0]):
+                add(i)
+    base = list(cands)
+    for t in base[:12]:
+        add(tm.add(t, tm.mk_int(1)))
+        add(tm.sub(t, tm.mk_int(1)))
+    import itertools
+    out = list(ground)
+    for q in quants:
+        vs = q.args[0]
+        ivs = [v for v in vs if v.sort == INT]
+        if len(ivs) != len(vs):
+            out.append(q)
+            continue
+        k = len(vs)
+        cs = cands
+        while len(cs) ** k > limit and len(cs) > 2:
+            cs = cs[:len(cs) - 1]
+        for tup in itertools.product(cs, repeat=k):
+            out.append(tm.substitute(q.args[1], dict(zip(vs, tup))))
+    return out, goal2
+
+
+def obligation_text_qf(ob, used_axioms=None):
+    hyps, goal = instantiate_quantifiers(list(ob.hyps), ob.goal)
+    ax = axioms.instantiate(hyps, goal, used=used_axioms)
+    text, _, _ = tm.script(hyps + ax, goal)
+    return text
+
+
 def _work(args):
-    idx, text, must_be_sat, budget, backends, all_backends = args
+    idx, text, must_be_sat, budget, backends, all_backends = args[:6]
     if must_be_sat:
         st, dt, model = solver.check_text_inproc(text, int(budget * 1000))
         return idx, dict(status=st, backend='z3-5.1-inproc', seconds=dt, tried=[('z3-5.1-inproc', st, round(dt, 3))], model=None)
     r = solver.discharge(text, budget, backends, all_backends)
+    if r['status'] == 'unknown' and len(args) > 6 and args[6]:
+        # quantifier-free instantiation (sound for unsat; a sat answer is a candidate counterexample only)
+        r2 = solver.discharge(args[6], budget, backends, False)
+        r2['tried'] = r['tried'] + [('qf-instantiated',) + tuple(t[1:]) for t in r2['tried']]
+        if r2['status'] == 'unsat':
+            r2['backend'] = (r2['backend'] or '') + '+qf-inst'
+            return idx, r2
+        if r2['status'] == 'sat':
+            r2['backend'] = (r2['backend'] or '') + '+qf-inst'
+            r2['weakened'] = True
+            return idx, r2
     return idx, r
 
 
@@ -431,7 +509,13 @@ def discharge_all(obligs, budget=10, backends=('z3-5.1-inproc', 'z3-4.8', 'cvc5'
                 continue
         text = obligation_text(ob, used)
         ob.text = text
-        tasks.append((i, text, ob.must_be_sat, budget, tuple(backends), all_backends))
+        qf = None
+        if not ob.must_be_sat and any(h.op == 'forall' for h in ob.hyps):
+            try:
+                qf = obligation_text_qf(ob, used)
+            except Exception:
+                qf = None
+        tasks.append((i, text, ob.must_be_sat, budget, tuple(backends), all_backends, qf))
     if tasks:
         nw = workers or min(16, max(1, os.cpu_count() or 4))
         if len(tasks) < 4 or nw == 1:
